@@ -18,7 +18,6 @@ import (
 	"sort"
 	"strconv"
 	"strings"
-	"time"
 
 	"github.com/git-lfs/git-lfs/v3/verifx/gitx"
 )
@@ -86,6 +85,15 @@ type batch struct {
 	in  io.WriteCloser
 	out *bufio.Reader
 	cf  context.CancelFunc
+	ctx context.Context
+}
+
+// fail reports a broken cat-file conversation: a tool-guard timeout is "inconclusive", anything else a tool error.
+func (b *batch) fail(format string, a ...interface{}) {
+	if b.ctx.Err() == context.DeadlineExceeded {
+		panic(toolFailure{msg: "git cat-file --batch timed out", timedOut: true})
+	}
+	toolFail(format, a...)
 }
 
 func newBatch(w *gitx.World, repo string) *batch {
@@ -104,7 +112,7 @@ func newBatch(w *gitx.World, repo string) *batch {
 	if err := cmd.Start(); err != nil {
 		toolFail("cat-file start: %v", err)
 	}
-	return &batch{cmd: cmd, in: in, out: bufio.NewReaderSize(out, 1<<16), cf: cf}
+	return &batch{cmd: cmd, in: in, out: bufio.NewReaderSize(out, 1<<16), cf: cf, ctx: ctx}
 }
 
 func (b *batch) close() {
@@ -115,11 +123,11 @@ func (b *batch) close() {
 
 func (b *batch) get(id string) (typ string, data []byte) {
 	if _, err := io.WriteString(b.in, id+"\n"); err != nil {
-		toolFail("cat-file write: %v", err)
+		b.fail("cat-file write: %v", err)
 	}
 	line, err := b.out.ReadString('\n')
 	if err != nil {
-		toolFail("cat-file read header for %s: %v", id, err)
+		b.fail("cat-file read header for %s: %v", id, err)
 	}
 	f := strings.Fields(line)
 	if len(f) != 3 {
@@ -128,7 +136,7 @@ func (b *batch) get(id string) (typ string, data []byte) {
 	n, _ := strconv.Atoi(f[2])
 	data = make([]byte, n+1)
 	if _, err := io.ReadFull(b.out, data); err != nil {
-		toolFail("cat-file read body for %s: %v", id, err)
+		b.fail("cat-file read body for %s: %v", id, err)
 	}
 	return f[1], data[:n]
 }
@@ -509,4 +517,3 @@ func lfsTracked(w *gitx.World, scratch string, s *snap, commit string) map[strin
 	return m
 }
 
-var _ = time.Second
